@@ -225,7 +225,7 @@ pub fn c12(tier: Tier) -> i32 {
             if format == Format::Fasta {
                 // every per-line assignment of LF / CRLF
                 let nlines = lf.iter().filter(|b| **b == b'\n').count();
-                if nlines <= if tier == Tier::Quick { 7 } else { 10 } {
+                if nlines <= if tier == Tier::Quick { 7 } else { 12 } {
                     for m in 1u32..(1 << nlines) - 1 {
                         variants.push((format!("per-line mask {:b}", m), with_crlf(m, false)));
                         variants.push((format!("per-line mask {:b}, no final terminator", m), strip_final(with_crlf(m, false))));
